@@ -166,7 +166,7 @@ Section Progress.
     Q s s' /\ (r = None -> reof (re s') = true) /\ (forall e, r = Some e -> is_framing e = false).
   Proof.
     bust s. unq. unfold db_feed_eof, rd_feed_eof, wake_ok. cbn.
-    destruct cm; cbn; [destruct (hflush dh) as [fl|]; [destruct (isnil fl); cbn; [destruct ((0 <? dsz) && (en =? 2) && negb (heof dh)); cbn|]|]|];
+    destruct cm; cbn; [destruct (hflush dh) as [fl|]; [destruct (isnil fl); cbn; [destruct ((0 <? dsz) && negb (heof dh)); cbn|]|]|];
       destruct w; cbn; intros [= <- <-]; cbn; destruct co; cbn; crush.
   Qed.
 
